@@ -189,13 +189,37 @@ static void op_fp_rand(int argc, char **argv) {
 	fp_free(a);
 }
 
+#ifdef WITH_FB
+/* fb_rand <seedhex> <bits> <digs> | fb_rand_ctx : RLC_FB_BITS / RLC_FB_DIGS as the library has them, the raw digit vector, the next 16 bytes */
+static void op_fb_rand(int argc, char **argv) {
+	fprintf(OUT, "bits=%d digs=%d", (int)RLC_FB_BITS, (int)RLC_FB_DIGS);
+	if (argc >= 2 && strcmp(argv[0], "fb_rand") == 0) {
+		fb_t a; int caught = 0;
+		int n = bytes_parse(B1, MAXB, argv[1]);
+		core_get()->seeded = 0;
+		rand_seed(B1, n);
+		fb_null(a); fb_new(a);
+		RLC_TRY { fb_rand(a); } RLC_CATCH_ANY { caught = 1; }
+		if (take_err() || caught) { fprintf(OUT, " err\n"); return; }
+		fprintf(OUT, " a="); raw_print(a, RLC_FB_DIGS, 0);
+		rand_bytes(B2, 16);
+		fprintf(OUT, " n:"); bytes_print(B2, 16);
+		fb_free(a);
+	}
+	fputc('\n', OUT);
+}
+#define FB_RAND_OPS {"fb_rand", op_fb_rand}, {"fb_rand_ctx", op_fb_rand},
+#else
+#define FB_RAND_OPS
+#endif
+
 #include "ops_md2.inc"
 #include "ops_md3.inc"
 
 const op_t ops_md[] = {
 	{"md_map", op_md_map}, {"md_hmac", op_md_hmac}, {"md_kdf", op_md_kdf}, {"md_mgf", op_md_kdf},
 	{"md_xmd", op_md_xmd}, {"drbg", op_drbg}, {"bn_rand", op_bn_rand}, {"bn_rand_mod", op_bn_rand_mod},
-	{"bn_rand_st", op_bn_rand_st}, {"fp_rand_ctx", op_fp_rand_ctx}, {"fp_rand", op_fp_rand},
+	{"bn_rand_st", op_bn_rand_st}, {"fp_rand_ctx", op_fp_rand_ctx}, {"fp_rand", op_fp_rand}, FB_RAND_OPS
 	MD2_OPS
 	MD3_OPS
 	{NULL, NULL}
